@@ -36,6 +36,8 @@ warning that a field is a reserved word, one might return:
     ]
 """
 
+import re
+
 from compiler.util import parser_types
 
 # Error levels; represented by the strings that will be included in messages.
@@ -64,6 +66,19 @@ BRIGHT_CYAN = "\033[0;1;36m"
 BRIGHT_WHITE = "\033[0;1;37m"
 BOLD = "\033[0;1m"
 RESET = "\033[0m"
+
+
+def split_lines(text):
+    """Splits source text into lines, exactly as the tokenizer numbers them.
+
+    Only "\n", "\r\n" and "\r" end a line.  (str.splitlines() would also split
+    at form feeds, vertical tabs and the Unicode line and paragraph separators,
+    which are ordinary characters inside comments, documentation and strings.)
+    """
+    lines = re.split("\r\n|\r|\n", text)
+    if lines and lines[-1] == "":
+        lines.pop()
+    return lines
 
 
 def location_or_default(location):
@@ -144,7 +159,7 @@ class _Message(object):
             pos = str(self.location.start)
         source_name = self.source_file or "[prelude]"
         if not self.location.is_synthetic and self.source_file in source_code:
-            source_lines = source_code[self.source_file].splitlines()
+            source_lines = split_lines(source_code[self.source_file])
             # An error at the end of the input (a missing Dedent, say) is located on
             # the line after the last one, which has no text to show.
             if self.location.start.line <= len(source_lines):
